@@ -92,11 +92,13 @@ def run(ctx):
     ops.append(f'ib.cbor -:-:.')
     ops.append(f'ib.cbor {MAGIC}:{VER}:.')
     # obtain: trailers
-    for size in (0, 1, 7, 8, 9, 100):
+    for size in (0, 1, 7, 8, 9, 100, 300):
         body = rbytes(rng, size)
         ops.append(f'ib.obtain {hexs(body)}')
         if size >= 8:
-            for tl in (size, size - 1, size + 1, 0, 2**63, 2**64 - 1, 2**63 - 1, size + 2**32):
+            # the true size with one extra high bit (a conversion that drops or masks that bit makes it look right again), and its neighbours
+            highbit = [size | (1 << b) for b in (8, 16, 24, 31, 32, 33, 47, 48, 55, 56, 62, 63)] + [(size | (1 << 63)) + d for d in (-1, 1)] + [2**64 - size, 2**64 - 1 - size]
+            for tl in [size, size - 1, size + 1, 0, 2**63, 2**64 - 1, 2**63 - 1, size + 2**32] + highbit:
                 ops.append(f'ib.obtain {hexs(body[:-8] + (tl % 2**64).to_bytes(8, "big"))}')
     for pk in pks + [hexs(rbytes(rng, 32)) for _ in range(20)] + ['00' * 32, 'ff' * 32]:
         ops.append(f'ib.id {pk}')
